@@ -110,6 +110,12 @@ def run(ctx):
             faults.append({"tag": "fault", "files": nf, "recs": n, "fault": {"phase": "none", "file": 0, "rec": 0}, "ok": True,
                            "visible": [[f, r] for f in range(1, nf + 1) for r in range(1, n + 1)], "stored": list(range(1, nf + 1)),
                            "failedfile": 0, "scaled": True})
+    # an observer reading while another connection holds the database exclusively (as a commit in
+    # progress does): an error or the complete content, never a silently empty / partial result
+    for n in (1, 2, 5):
+        for nf in (1, 2):
+            faults.append({"tag": "lockedread", "files": nf, "recs": n, "fault": {"phase": "none", "file": 0, "rec": 0}, "ok": True,
+                           "visible": [], "stored": [], "failedfile": 0})
     ctx.add_samples([faults[len(faults) // 2], ids[len(ids) // 2]], 2)
     ctx.replay("upload", faults, "single-fault scenarios against the /upload handler", timeout=3000)
     evp = os.path.join(ctx.work, "id-events.ndjson")
